@@ -19,18 +19,15 @@
 (* is_range_free are total.  The original behaviours are kept as           *)
 (* CONSTANT-switchable mutants (the Bug_ constants) used as negative controls.          *)
 (***************************************************************************)
-EXTENDS Naturals, Sequences
+EXTENDS Naturals, Sequences, Chars
 
 CONSTANTS Bug_ShiftNonAtomic,       \* original: buffer[l-1] := '1' before the overlap test
           Bug_PushIgnoresFrozen,    \* original: push never looks at `frozen`
           Bug_PositionFreeUnderflow \* original: is_position_free on an empty buffer underflows
 
-Ch(s, i) == SubSeq(s, i, i)
 RECURSIVE Zeros(_)
 Zeros(n) == IF n = 0 THEN "" ELSE "0" \o Zeros(n - 1)
 AllZeros(s) == \A i \in 1..Len(s) : Ch(s, i) = "0"
-IsDigitChar(c) == c \in {"0","1","2","3","4","5","6","7","8","9"}
-IsDigits(s) == \A i \in 1..Len(s) : IsDigitChar(Ch(s, i))
 
 New == [buf |-> "", lz |-> 0, frozen |-> FALSE, flags |-> 0, marker |-> "none"]
 R(st, ds) == [st |-> st, ds |-> ds]
